@@ -439,9 +439,20 @@ func rangeIndex(first, last, code []byte) (index int, ok bool) {
 }
 
 func (f *File) LookupCID(code []byte) CID {
+	if cid, ok := f.lookupMappedCID(code); ok {
+		return cid
+	}
+	// not mapped anywhere in the chain: the notdef entries apply, starting
+	// with those of f itself
+	return f.LookupNotdefCID(code)
+}
+
+// lookupMappedCID returns the CID which f or one of its ancestors maps code
+// to, ignoring notdef entries.
+func (f *File) lookupMappedCID(code []byte) (CID, bool) {
 	for _, s := range f.CIDSingles {
 		if bytes.Equal(s.Code, code) {
-			return s.Value
+			return s.Value, true
 		}
 	}
 
@@ -450,14 +461,13 @@ func (f *File) LookupCID(code []byte) CID {
 		if !ok {
 			continue
 		}
-		return r.Value + CID(index)
+		return r.Value + CID(index), true
 	}
 
 	if f.Parent != nil {
-		return f.Parent.LookupCID(code)
+		return f.Parent.lookupMappedCID(code)
 	}
-
-	return f.LookupNotdefCID(code)
+	return 0, false
 }
 
 func (f *File) LookupNotdefCID(code []byte) CID {
